@@ -98,6 +98,7 @@ type Client struct {
 	NoVersion   bool      `json:"no_version,omitempty"`    // connect GET: omit connect=v1 ... (only robustness)
 	GetBase64   bool      `json:"get_base64,omitempty"`    // connect GET: base64 even for text codecs
 	GetPadded   bool      `json:"get_padded,omitempty"`
+	GetVersionHeader bool `json:"get_version_header,omitempty"` // connect GET: also send Connect-Protocol-Version: 1
 	Fault       *Fault    `json:"fault,omitempty"`
 	// raw overrides (robustness / pass-through scenarios)
 	RawMethod string `json:"raw_method,omitempty"`
@@ -611,7 +612,8 @@ type Outcome struct {
 	HandlerCtx   context.Context
 	Body         *scriptBody
 	Snapshot     *reqSnapshot // request as given to ServeHTTP
-	Hang         bool         // ServeHTTP did not return within the watchdog
+	Hang         bool         // ServeHTTP did not return within the watchdog (or the exchange wedged, see HangWhy)
+	HangWhy      string
 	Direct       bool         // the handler was given the client's own ResponseWriter (pass-through / unknown handler)
 	cancelParent context.CancelFunc
 	AllocBytes   int64 // bytes allocated while ServeHTTP ran (only when measureAlloc is on)
@@ -805,6 +807,9 @@ func runScenarioFull(sc *Scenario, shared *sharedTranscoder, noFlusher bool, wit
 		return out
 	}
 	atomic.StoreInt32(&done, 1)
+	if out.Backend != nil && out.Backend.Spin {
+		out.Hang, out.HangWhy = true, errSpinningRead.Error()
+	}
 	out.Trailers = rec.Trailers()
 	out.Client = parseClientResponse(sc, enc, rec, out.Trailers)
 	return out
